@@ -702,4 +702,16 @@ theorem attempt_ok {R : Res} {id : Nat} {ae : Bool} {nsOf : String} {a : Entry} 
       refine ⟨t, _, ht2, names, (x.merge (some nsOf) a).d, ?_, merge_collision_err x (some nsOf) a hnf⟩
       simp [fullAt, (hx.update hnp).walk]
 
+theorem attempt_ok_le {R : Res} {id : Nat} {ae : Bool} {nsOf : String} {a : Entry} {f f' : Forest}
+    (h : attemptR R id ae nsOf a f = (f', true)) : FLe f f' := by
+  have hout := attemptR_outcome R id ae nsOf a f
+  rw [h] at hout
+  generalize hfe : (f', true) = res at hout
+  cases hout with
+  | fail _ _ _ _ _ => simp at hfe
+  | ok t names f1 root' q x htg hv1 hle1 ht1 hx hcan =>
+    simp only [Prod.mk.injEq, and_true] at hfe
+    subst hfe
+    exact hle1.trans (FLe.setTree ht1 (Le.update hx (merge_namePres (some nsOf) a) (Le.merge x (some nsOf) a)))
+
 end Goyang.Lemmas.AugmentStep
